@@ -8,6 +8,7 @@ import (
 	"verif/harness/internal/core"
 	"verif/harness/internal/dump"
 	"verif/harness/internal/kmodel"
+	"verif/harness/internal/schema"
 )
 
 type histOpts struct {
@@ -20,6 +21,7 @@ type histOpts struct {
 	AfterTx  func(e *kmodel.Engine, res *kmodel.TxResult, before, after *dump.Dump)
 	NeedDump bool
 	Setup    func(e *kmodel.Engine)
+	FanIn    bool // the last transactions of the history point several employees at one dept / boss and delete the target
 }
 
 func dumpDb(e *kmodel.Engine) *dump.Dump {
@@ -50,6 +52,10 @@ func runHistory(c *core.Ctx, r *core.Rand, o histOpts) {
 	var hist [][]kmodel.Op
 	for t := 0; t < o.NTx; t++ {
 		ops := e.GenTx(r, o.MaxOps, o.Hostile)
+		if o.FanIn && t >= o.NTx-9 {
+			ops = fanInOps(e, t-(o.NTx-9))
+			c.Count("fan_in_steps", 1)
+		}
 		if len(ops) == 0 {
 			continue
 		}
@@ -94,6 +100,67 @@ func runHistory(c *core.Ctx, r *core.Rand, o histOpts) {
 	if c.WantSample() {
 		c.Sample(map[string]any{"cfg": o.Cfg.String(), "first_transactions": tailHistHead(hist, 3)})
 	}
+}
+
+// fanInOps scripts the end of a history: step 0 makes sure dept d1 exists, steps 1-6 create (or rewrite) six employees
+// that all reference d1 and, from the second on, have the first one as their boss; step 7 deletes d1 and step 8 the
+// first employee. Restrict, nullable and cascade wirings each make something different of it (predicted by the model):
+// in particular cascades and restrict checks with three and more direct referrers.
+func fanInOps(e *kmodel.Engine, step int) []kmodel.Op {
+	emps := []string{"e1", "E1", "or", "e 2", `e"q`, "é3"}
+	_, haveDept := e.M.Ents[kmodel.Depts]["d1"]
+	switch {
+	case step == 0:
+		if haveDept {
+			return nil
+		}
+		return []kmodel.Op{{Kind: "create", Store: kmodel.Depts, Id: "d1", V: map[string]any{"name": nil}}}
+	case step >= 1 && step <= 6:
+		if !haveDept {
+			return nil
+		}
+		id := emps[step-1]
+		v := map[string]any{"name": "fan-" + id, "nick": nil, "title": "t1", "roles": []string{"r1"}, "dept": "d1", "boss": nil, "grade": nil}
+		if step > 1 {
+			if _, ok := e.M.Ents[kmodel.Emps][emps[0]]; ok {
+				v["boss"] = emps[0]
+			}
+		}
+		if !e.Cfg.BossNullable && v["boss"] == nil {
+			v["boss"] = id // a self reference satisfies the non-nullable constraint
+		}
+		kind := "create"
+		if _, ok := e.M.Ents[kmodel.Emps][id]; ok {
+			kind = "update"
+		}
+		return []kmodel.Op{{Kind: kind, Store: kmodel.Emps, Id: id, V: v}}
+	}
+	// the deleting transactions first write one more referrer into the referencing store (the delete then walks a
+	// bucket the same transaction has already modified)
+	extra := func(id string) kmodel.Op {
+		v := map[string]any{"name": "fan-" + id, "nick": nil, "title": "t1", "roles": []string{"r1"}, "dept": nil, "boss": nil, "grade": nil}
+		if haveDept {
+			v["dept"] = "d1"
+		} else if e.Cfg.DeptFK != schema.FkIndexNullable {
+			for d := range e.M.Ents[kmodel.Depts] {
+				v["dept"] = d
+			}
+		}
+		if _, ok := e.M.Ents[kmodel.Emps][emps[0]]; ok {
+			v["boss"] = emps[0]
+		} else if !e.Cfg.BossNullable {
+			v["boss"] = id
+		}
+		kind := "create"
+		if _, ok := e.M.Ents[kmodel.Emps][id]; ok {
+			kind = "update"
+		}
+		return kmodel.Op{Kind: kind, Store: kmodel.Emps, Id: id, V: v}
+	}
+	if step == 7 {
+		return []kmodel.Op{extra("e\n"), {Kind: "delete", Store: kmodel.Depts, Id: "d1"}}
+	}
+	return []kmodel.Op{extra("e\nl"), {Kind: "delete", Store: kmodel.Emps, Id: emps[0]}}
 }
 
 func tailHist(h [][]kmodel.Op, n int) [][]kmodel.Op {
